@@ -101,7 +101,7 @@ def evaluate(host, probes, workdir, externs=("gc_arena",)):
             p.first_error = errs[0][:300] if errs else r.stderr[:300]
             if "internal compiler error" in r.stderr:
                 p.first_error = "ICE: " + p.first_error
-        elif p.expect in ("run", "reject_or_run", "reject", "known"):
+        elif p.expect in ("run", "valid_run", "reject_or_run", "reject", "known"):
             # accepted: build and run it (for 'reject' probes this demonstrates the consequence)
             exe = os.path.join(workdir, f"p_{h}.bin")
             r2 = host.rustc(src, exe, False, externs)
@@ -136,6 +136,13 @@ def judge(prop, probes, known):
         if p.expect == "accept":
             if not p.accepted:
                 mach.append(f"positive twin {p.id} does not compile: {p.first_error}")
+        elif p.expect == "valid_run":
+            # a generated program that uses the subject only in valid ways (it compiles on the reference tree): a
+            # rejection is the subject refusing valid input, not a machinery problem
+            if not p.accepted:
+                viol.append((p, f"a valid program is rejected: {p.first_error}"))
+            elif p.exit != 0:
+                viol.append((p, f"program exits {p.exit}: {p.output.strip()[-300:]}"))
         elif p.expect == "run":
             if not p.accepted:
                 mach.append(f"runnable probe {p.id} does not compile: {p.first_error}")
